@@ -634,7 +634,7 @@ fn part2(res: &mut JobResult) {
             let shared2 = w.node.shared();
             let rootsess2 = w.node.root.clone();
             let tname = transport;
-            let sent_diffs: Vec<(String, String)> = w.node.block_on(async {
+            let sent_diffs: Result<Vec<(String, String)>, String> = w.node.try_block_on(async {
                 let mut d = Vec::new();
                 let (st, tp) = (Identifier::numeric(1).unwrap(), Identifier::numeric(4).unwrap());
                 let partitionings = [Partitioning::partition_id(1), Partitioning::balanced(), Partitioning::messages_key_str("order-1").unwrap(), Partitioning::messages_key_u128(u128::MAX)];
@@ -678,6 +678,7 @@ fn part2(res: &mut JobResult) {
                 d
             });
             res.evaluations += 8;
+            let sent_diffs = sent_diffs.unwrap_or_else(|p| vec![(format!("{tname}:send_messages/panic"), format!("sending or reading back panicked: {p}"))]);
             for (what, detail) in sent_diffs {
                 if res.violations.len() < 40 {
                     res.violations.push(Violation { property: "C13".into(), key: format!("C13:request:{what}"), message: format!("state '{label}' over {transport}, {what}: {detail}"), replay: json!({"kind":"cod","part":2,"state":label,"field":what}) });
@@ -685,7 +686,9 @@ fn part2(res: &mut JobResult) {
             }
         }
         let rootsess = w.node.root.clone();
-        let diffs: Vec<(String, String)> = w.node.block_on(async {
+        // a panic in here is either the SDK decoder failing on a server response or an `expect` on a call
+        // that must succeed: both are disagreements between client and server, not harness failures
+        let diffs: Result<Vec<(String, String)>, String> = w.node.try_block_on(async {
             let mut d: Vec<(String, String)> = Vec::new();
             let sys = shared.read().await;
             macro_rules! cmp {
@@ -885,6 +888,13 @@ fn part2(res: &mut JobResult) {
             d
         });
         res.evaluations += 200;
+        let diffs = match diffs {
+            Ok(d) => d,
+            Err(p) => {
+                let loc: String = p.split(':').take(2).collect::<Vec<_>>().join(":").replace("panicked at ", "");
+                vec![(format!("{}panic", if http { "http:" } else { "" }), format!("decoding or requesting a response panicked / failed: {p} [{loc}]"))]
+            }
+        };
         for (what, detail) in diffs {
             if res.violations.len() < 40 {
                 res.violations.push(Violation {
